@@ -13,13 +13,13 @@ chk("C05", "model_checking",
 chk("C12", "model_checking",
     "All interleavings of puts, Discard/Finalize interruptions and reopen variants up to the bound are taken from the TLC graph of Store.tla and replayed; the final "
     "file is compared byte-for-byte with the uninterrupted real session and with the specification; refused reopens must leave the bytes untouched.",
-    "Exhaustive within: 3 blocks (plain, empty-data, identity), interleavings <= 5 (6 thorough), 16 (24) option sets, 4 root lists incl. duplicates, 8 reopen variants, both stores. " + TB,
+    "Exhaustive within: 3 blocks (68-byte CID, empty-data, identity), interleavings <= 5 (6 thorough), 18 (26) option sets incl. a reader-side section limit below the stored sections, 4 root lists incl. duplicates, 8 reopen variants, both stores. " + TB,
     "TLA+ spec (Reopen action) + TLC graph replay with byte comparison", "DESIGN.md §3 C12")
 chk("C14", "model_checking",
     "Reader.tla models the block reader's incremental offset bookkeeping; TLC checks it against the closed-form scan offsets for every bounded archive and every "
     "Next/SkipNext string, and every maximal behaviour is replayed on the real BlockReader over three source kinds with CID sequence, metadata, bytes at "
     "SourceOffset and source consumption compared.",
-    "Exhaustive within: <= 3 sections over 8 (13 thorough) blocks, 5 root lists incl. identity-CID roots, 6 containers incl. non-canonical headers, all choice strings, 6 source kinds (short reads, WithTrustedCAR). " + TB,
+    "Exhaustive within: <= 3 sections over 8 (13 thorough) blocks, 5 root lists incl. identity-CID roots, 6 containers incl. non-canonical headers, all choice strings, 10 source kinds (short reads, WithTrustedCAR, counting ByteReader, data-with-EOF, the payload reader of a v2.Reader). " + TB,
     "TLA+ state machine of BlockReader + TLC behaviours replayed on the real reader", "DESIGN.md §3 C14")
 chk("C02", "fault_enumeration",
     "Every proper prefix and every data/digest byte corruption of every TLC-enumerated archive is run through every verifying/scanning reader; TLC validates each recorded "
@@ -38,22 +38,22 @@ chk("C07", "model_checking",
     "TLA+ scan-derived answers vs the real read-only stores", "DESIGN.md §3 C07")
 chk("C13", "model_checking",
     "ArchiveOps!Stats is compared field by field with Reader.Inspect on every bounded archive; Inspect's success is compared with a verifying scan on valid archives, on every truncation/corruption "
-    "of the C02 set and on index-codec damage.",
-    "Exhaustive within the archive bounds; corruption part enumerated as in C02. " + TB,
+    "of the C02 set, every flip of a byte in front of the first section, an over-announced last section, index-codec damage, and archives holding a block that nothing can verify.",
+    "Exhaustive within the archive bounds (four block alphabets); corruption part enumerated by the check itself (harness mode iff). " + TB,
     "TLA+ Stats operator as oracle + iff-with-scan on enumerated corruptions", "DESIGN.md §3 C13")
 chk("C01", "model_checking",
     "Every bounded archive is read by every sequential reader and compared with the specification's scan; every store writer's payload (all Store.tla histories) is compared byte-for-byte with the reference encoding.",
-    "Exhaustive within the archive and store bounds. " + TB,
+    "Exhaustive within the archive and store bounds; plus a 5 MiB block and a 70 000-section archive through every reader / loader. " + TB,
     "TLA+ archive/scan operators + replay into all readers and writers", "DESIGN.md §3 C01")
 chk("C11", "model_checking",
     "Index.tla defines the canonical serial form and the lookups as functions of the record multiset; TLC checks order independence over all permutations; every load order is replayed on both codecs "
     "(determinism over 8 serializations, canonical bucket/entry order, byte count, round trip, lookups, iteration); flattened vs regenerated indexes are compared on every finished file of the Store graphs.",
-    "Exhaustive within: load sequences <= 3 (4) over 10 records. " + TB,
+    "Exhaustive within: load sequences <= 3 (4) over 11 records; read-back also through short-read sources. " + TB,
     "TLA+ canonical-form spec + TLC load orders replayed on the index codecs", "DESIGN.md §3 C11")
 chk("C10", "model_checking",
     "Transform.tla models wrap / extract / replace-roots as actions on an abstract file; TLC checks payload invariance and extract(wrap(x)) = x over the complete bounded behaviour tree, and every "
     "behaviour is replayed on real files with all bytes compared against the reference encoding after every step (and unchanged bytes on refusal).",
-    "Exhaustive within: files <= 2 sections over 6 blocks, 5 root lists, 8 containers incl. a null-padded CARv1 and non-canonical headers, 11 operations, behaviours of 2 (3) steps; plus WrapV1 of a 70 000-section archive. " + TB,
+    "Exhaustive within: files <= 2 sections over 6 blocks, 5 root lists, 8 containers incl. a null-padded CARv1 and non-canonical headers, 13 operations (WrapV1 with and without StoreIdentityCIDs), behaviours of 2 (3) steps; plus WrapV1 of a 70 000-section archive. " + TB,
     "TLA+ action spec + TLC behaviours replayed on real files with byte comparison", "DESIGN.md §3 C10")
 chk("C20", "model_checking",
     "Deferred.tla models lazy creation, callback bookkeeping and the closed typestate; TLC checks Lazy/OnceFiresOnce on the complete bounded behaviour tree; every behaviour is replayed on the real "
@@ -63,7 +63,7 @@ chk("C20", "model_checking",
 chk("C06", "fault_enumeration",
     "Every crash point (operation boundary and byte within every write) of recorded real sessions is materialised, reopened with the real resumption code, continued and finalized; TLC validates each "
     "observation against CrashObs!CrashSafe and the recorded write logs against the I-layer write protocol WriteProto.tla.",
-    "Exhaustive over crash points of 48 (120 thorough) sessions; crash = prefix of issued writes, last possibly torn. " + TB,
+    "Exhaustive over crash points of 100 (198 thorough) sessions incl. sessions resumed from a crash inside Finalize and inside a reopen's own header clearing; crash = prefix of issued writes, last possibly torn. " + TB,
     "recorded crash-point observations validated by TLC against a TLA+ relation; write-log trace validation against a TLA+ protocol spec", "DESIGN.md §3 C06")
 chk("C16", "fault_enumeration",
     "A transient write fault is injected at every write of a session and every persisted-byte count, followed by every continuation; TLC validates each observation against FaultObs!FaultSafe.",
@@ -77,17 +77,17 @@ chk("C08", "model_checking",
 chk("C17", "model_checking",
     "ExtractFS.tla models the extractor step by step over a POSIX-like file system with symlink resolution; TLC checks containment on all bounded archives (and yields the symlink-then-file counterexample "
     "without the final-component guard); every archive is built as a real UnixFS DAG and extracted by the built car binary in a sandbox whose outside is snapshotted before/after.",
-    "Exhaustive within: <= 2 (3) top-level entries, 29 leaf entry kinds + directories, 4 pre-populated states, one/two roots; plus bare file roots over entries named `unknown` and 6 pre-populated states. " + TB + " The kernel's path resolution.",
+    "Exhaustive within: <= 2 (3) top-level entries, 29 leaf entry kinds + directories, 4 pre-populated states, one/two roots; plus bare file roots over entries named `unknown` and 6 pre-populated states, deep directory names, same-name triples with missing blocks, `--path` lookups, the library entry lib.ExtractFromFile; permission bits are part of the outside snapshot. " + TB + " The kernel's path resolution.",
     "TLA+ file-system model + TLC-enumerated hostile archives extracted by the real binary with snapshot comparison", "DESIGN.md §3 C17")
 chk("C18", "exploration",
     "Tree.tla gives the tree extraction must produce for each source tree and wrapping mode (RoundTrip checked by TLC); a seeded sample of the TLC-enumerated (tree, configuration) cases is run through the built "
     "car create / car root / car extract and compared entry by entry.",
-    "Model-generated cases, sampled (quick: 15% of 16k cases; trees with a file whose bytes are another node's block are always run); source path spelled /abs, `.` or `dir/.`. Chunking/sharding are go-unixfsnode's. " + TB,
+    "Model-generated cases, sampled (quick: 15% of 16k cases; trees with a file whose bytes are another node's block are always run); source path spelled /abs, `.` or `dir/.`; output directory fresh, through a symbolic link, or over a stale earlier extraction. Chunking/sharding are go-unixfsnode's. " + TB,
     "TLA+ tree model as case generator and oracle + real CLI round trip", "DESIGN.md §3 C18")
 chk("C19", "exploration",
     "Cli.tla defines every sub-command as an operator on abstract archives (filter with the store's de-duplication, append, index, list, get-block, concat) with closure predicates; all TLC-enumerated "
     "archives are run through the built car binary, outputs compared with the reference encoding of the operator's result, and every emitted archive checked with car inspect --full / car verify.",
-    "All sub-commands on all bounded archives; filter flag combinations sampled; get-dag on all DAGs over 3 nodes (4: sampled / thorough all) x selectors x missing blocks x --strict against Traversal.tla. " + TB,
+    "All sub-commands on all bounded archives; filter flag combinations sampled; get-dag on all DAGs over 3 nodes (4: sampled / thorough all) x selectors x missing blocks x --strict against Traversal.tla; the filter configuration also with a CLI linked against the released library. " + TB,
     "TLA+ operators as oracle + real CLI runs with closure under the tool's own verifier", "DESIGN.md §3 C19")
 chk("C15", "model_checking",
     "Traversal.tla is an explicit DFS machine (selector, visit-once, link budget) over all small DAGs; its predicted load sequence agrees with the real engine (drift check) and every case is run through all "
